@@ -369,3 +369,28 @@ V("polygon 3D: coplanarity dropped from the projected test", "C16", SHAPES, "   
   "            return PolygonCollection.from_array(arr).contains(other)", "E11.P", "PolygonTensor.contains")
 V("twin: polygon boundary added with np.logical_or in the return", "C16", SHAPES, "        result |= np.any(edge_points, axis=-1)\n\n        return result",
   "        return result | np.any(edge_points, axis=-1)", "silent")
+
+
+# ------------------------------------------------------------------------------------------------ C20 closed-form kernels (E12)
+DET3_OLD = "            + A[..., 0, 1] * A[..., 1, 2] * A[..., 2, 0]\n"
+V("det 3x3: one index of a Sarrus term swapped", "C20", MATH, DET3_OLD, "            + A[..., 0, 1] * A[..., 1, 2] * A[..., 2, 1]\n", "E12.det", "det", quick=True)
+V("det 3x3: sign of one Sarrus term flipped", "C20", MATH, "            - A[..., 2, 1] * A[..., 1, 2] * A[..., 0, 0]\n", "            + A[..., 2, 1] * A[..., 1, 2] * A[..., 0, 0]\n", "E12.det", "det")
+V("det 2x2: transposed anti-diagonal written twice", "C20", MATH, "        return A[..., 0, 0] * A[..., 1, 1] - A[..., 1, 0] * A[..., 0, 1]", "        return A[..., 0, 0] * A[..., 1, 1] - A[..., 1, 0] * A[..., 1, 0]", "E12.det", "det")
+V("twin: det 3x3 by Laplace expansion along the first row with named minors", "C20", MATH,
+  "        return (\n            A[..., 0, 0] * A[..., 1, 1] * A[..., 2, 2]\n            + A[..., 0, 1] * A[..., 1, 2] * A[..., 2, 0]\n            + A[..., 0, 2] * A[..., 1, 0] * A[..., 2, 1]\n"
+  "            - A[..., 2, 0] * A[..., 1, 1] * A[..., 0, 2]\n            - A[..., 2, 1] * A[..., 1, 2] * A[..., 0, 0]\n            - A[..., 2, 2] * A[..., 1, 0] * A[..., 0, 1]\n        )",
+  "        m0 = A[..., 1, 1] * A[..., 2, 2] - A[..., 1, 2] * A[..., 2, 1]\n        m1 = A[..., 1, 0] * A[..., 2, 2] - A[..., 1, 2] * A[..., 2, 0]\n        m2 = A[..., 1, 0] * A[..., 2, 1] - A[..., 1, 1] * A[..., 2, 0]\n"
+  "        return A[..., 0, 0] * m0 - A[..., 0, 1] * m1 + A[..., 0, 2] * m2", "silent")
+V("twin: det 2x2 with the factors reordered", "C20", MATH, "        return A[..., 0, 0] * A[..., 1, 1] - A[..., 1, 0] * A[..., 0, 1]", "        return -A[..., 0, 1] * A[..., 1, 0] + A[..., 1, 1] * A[..., 0, 0]", "silent")
+V("adjugate 2x2: row and column tables exchanged", "C20", MATH, "        result = A[..., [[1, 0], [1, 0]], [[1, 1], [0, 0]]]", "        result = A[..., [[1, 1], [0, 0]], [[1, 0], [1, 0]]]", "E12.adj", "adjugate")
+V("adjugate 2x2: signs on the diagonal", "C20", MATH, "        result[..., [0, 1], [1, 0]] *= -1\n        return result\n\n    if n >= 5", "        result[..., [0, 1], [0, 1]] *= -1\n        return result\n\n    if n >= 5", "E12.adj", "adjugate")
+V("adjugate minors: transposition dropped", "C20", MATH, "        result = np.swapaxes(result, -1, -2)\n        result[..., 1::2, ::2] *= -1", "        result[..., 1::2, ::2] *= -1", "E12.adj", "adjugate")
+V("adjugate minors: sign pattern on the odd-odd positions", "C20", MATH, "        result[..., ::2, 1::2] *= -1", "        result[..., 1::2, 1::2] *= -1", "E12.adj", "adjugate")
+V("_minor_indices deletes column i and row j", "C20", MATH, "np.delete(np.delete(indices, i, axis=1), j, axis=2)", "np.delete(np.delete(indices, i, axis=2), j, axis=1)", "E12.adj", "_minor_indices")
+V("twin: _minor_indices deletes the column first", "C20", MATH, "np.delete(np.delete(indices, i, axis=1), j, axis=2)", "np.delete(np.delete(indices, j, axis=2), i, axis=1)", "silent")
+V("inv: determinant broadcast over one axis only", "C20", MATH, "        return adjugate(A) / d[..., None, None]", "        return adjugate(A) / d[..., None]", "E12.inv", "inv")
+V("inv: determinant of the adjugate path not broadcast", "C20", MATH, "        return adjugate(A) / d[..., None, None]", "        return adjugate(A) / d", "E12.inv", "inv")
+V("hat_matrix 3D: index table rotated", "C20", MATH, "        i, j = [1, 2, 0], [2, 0, 1]", "        i, j = [0, 1, 2], [1, 2, 0]", "E12.hat", "hat_matrix")
+V("hat_matrix 3D: sign convention exchanged", "C20", MATH, "        result[..., i, j] = x\n        result[..., j, i] = -x\n        return result", "        result[..., i, j] = -x\n        result[..., j, i] = x\n        return result", "E12.hat", "hat_matrix")
+V("twin: hat_matrix 3D with the tables listed in another order", "C20", MATH, "        i, j = [1, 2, 0], [2, 0, 1]\n        result[..., i, j] = x\n        result[..., j, i] = -x",
+  "        i, j = [2, 0, 1], [1, 2, 0]\n        result[..., i, j] = -x\n        result[..., j, i] = x", "silent")
